@@ -109,6 +109,9 @@ impl Machine {
         let bsc: Vec<u32> = field(case, "bsc").unwrap_or("ff,fb,ff,cf,e0").split(',').map(h).collect();
         let n: u32 = field(case, "n").map(h).unwrap_or(1);
         let mut touched: Vec<u32> = Vec::new();
+        // the machine is reused: put timer channel 0 back into its reset state
+        let _ = self.cpu.bus.write(0xffff80, 0);
+        self.restore(0xffff80);
         for (i, a) in [0xfee020u32, 0xfee021, 0xfee022, 0xfee023, 0xfee026].iter().enumerate() {
             self.poke(*a, *bsc.get(i).unwrap_or(&0) as u8);
             touched.push(*a);
@@ -132,6 +135,14 @@ impl Machine {
                 .filter_map(|e| e.split_once(':').map(|(k, v)| (h(k), h(v) as u8)))
                 .collect()
         });
+        // tcr=<h>: the guest's earlier write of 8TCR0; mod=1: the run loop's module update after every instruction
+        let with_modules = field(case, "mod").is_some();
+        if let Some(t) = field(case, "tcr") {
+            let t = h(t) as u8;
+            let _ = self.cpu.bus.write(0xffff80, t);
+            self.poke(0xffff80, t);
+            touched.push(0xffff80);
+        }
         for i in 0..8 {
             self.cpu.er[i] = *ers.get(i).unwrap_or(&0);
         }
@@ -171,8 +182,8 @@ impl Machine {
             }
             trace.push(format!("{:x}", cpu.vh_pc()));
             let r = std::panic::catch_unwind(std::panic::AssertUnwindSafe(|| cpu.vh_step()));
-            match r {
-                Ok(Ok(c)) => cost += c as u32,
+            let c = match r {
+                Ok(Ok(c)) => c,
                 Ok(Err(_)) => {
                     outcome = format!("err@{:x}", k);
                     break;
@@ -180,6 +191,22 @@ impl Machine {
                 Err(_) => {
                     outcome = format!("panic@{:x}", k);
                     break;
+                }
+            };
+            cost += c as u32;
+            if with_modules {
+                // as in Cpu::run: `state * 3`, then update_modules
+                let r = std::panic::catch_unwind(std::panic::AssertUnwindSafe(|| cpu.vh_update_modules(c.wrapping_mul(3))));
+                match r {
+                    Ok(Ok(())) => {}
+                    Ok(Err(_)) => {
+                        outcome = format!("err@{:x}", k);
+                        break;
+                    }
+                    Err(_) => {
+                        outcome = format!("panic@{:x}", k);
+                        break;
+                    }
                 }
             }
             k += 1;
@@ -228,13 +255,15 @@ pub struct CaseB {
     pub mem: BTreeMap<u32, u8>,
     pub n: u32,
     pub irq: Option<Vec<(u32, u8)>>,
+    /// Some(tcr): 8TCR0 was written with this value before, and modules are updated after every instruction
+    pub modules: Option<u8>,
 }
 
 pub const RESET_BSC: [u8; 5] = [0xff, 0xfb, 0xff, 0xcf, 0xe0];
 
 impl CaseB {
     pub fn new() -> Self {
-        CaseB { pc: 0xffc000, ccr: 0, er: [0; 8], bsc: RESET_BSC, mem: BTreeMap::new(), n: 1, irq: None }
+        CaseB { pc: 0xffc000, ccr: 0, er: [0; 8], bsc: RESET_BSC, mem: BTreeMap::new(), n: 1, irq: None, modules: None }
     }
     pub fn put(&mut self, a: u32, bytes: &[u8]) {
         for (k, b) in bytes.iter().enumerate() {
@@ -276,6 +305,9 @@ impl CaseB {
         if let Some(q) = &self.irq {
             let v: Vec<String> = q.iter().map(|(k, v)| format!("{:x}:{:x}", k, v)).collect();
             s.push_str(&format!(" irq={}", v.join(",")));
+        }
+        if let Some(t) = self.modules {
+            s.push_str(&format!(" tcr={:x} mod=1", t));
         }
         s
     }
@@ -941,6 +973,9 @@ impl StepMode {
                     c.put((rng.below(64) * 4) as u32, &v.to_be_bytes());
                 }
                 c.n = if rng.chance(1, 4) { rng.range(2, 5) as u32 } else { 1 };
+                if rng.chance(1, 3) {
+                    c.modules = Some(rng.u8());
+                }
                 emit(c.line());
             }
         }
@@ -987,6 +1022,54 @@ impl StepMode {
                 }
             }
             emit(c.line());
+        }
+        // the guest programs the timer: every byte value stored to every 8-bit-timer register by every store
+        // form, then the run loop's module update after each instruction
+        let regs8: [u32; 10] = [0xffff80, 0xffff82, 0xffff84, 0xffff86, 0xffff88, 0xffff81, 0xffff83, 0xffff90, 0xffff89, 0xffff8f];
+        for v in 0..=255u32 {
+            for (ri, reg) in regs8.iter().enumerate() {
+                for variant in 0..4u32 {
+                    idx += 1;
+                    if !ctx.mine(idx) || (quick && ri > 4 && (v + variant) % 4 != 0) {
+                        continue;
+                    }
+                    let mut c = CaseB::new();
+                    c.er = adv_regs(rng);
+                    c.er[7] = 0xffcf00;
+                    c.ccr = rng.u8();
+                    c.pc = code_addr(rng, 2);
+                    let lo = (*reg & 0xffff) as u16;
+                    let mut prog: Vec<u16> = vec![0xf800 | v as u16];
+                    match variant {
+                        0 => prog.push(0x3800 | (*reg & 0xff) as u16),
+                        1 => prog.extend_from_slice(&[0x6a88, lo]),
+                        2 => prog.extend_from_slice(&[0x6aa8, 0x00ff, lo]),
+                        _ => {
+                            c.er[1] = *reg | if rng.chance(1, 2) { 0x5a000000 } else { 0 };
+                            prog.push(0x6898);
+                        }
+                    }
+                    let nops = rng.range(1, 6) as usize;
+                    for _ in 0..nops {
+                        prog.push(0x0a00 | rng.below(16) as u16); // INC.B Rd
+                    }
+                    c.n = (2 + nops) as u32;
+                    c.put_words(c.pc, &prog);
+                    // counter and compare registers near a match / overflow
+                    if rng.chance(1, 2) {
+                        let t = rng.u8();
+                        c.put(0xffff88, &[t]);
+                        c.put(0xffff84, &[t.wrapping_add(rng.below(3) as u8)]);
+                        c.put(0xffff86, &[t.wrapping_add(rng.below(3) as u8)]);
+                    }
+                    c.modules = Some(match rng.below(4) {
+                        0 => 0,
+                        1 => rng.u8(),
+                        _ => (rng.u8() & 0xf8) | rng.below(8) as u8,
+                    });
+                    emit(c.line());
+                }
+            }
         }
     }
 
